@@ -376,6 +376,22 @@ impl EnvState {
     fn endpoints_untouched(&self) -> bool {
         self.init_channel_calls == 0 && self.channel_senders.len() == 2 && self.channel_receivers.is_none()
     }
+    /// a machine in the given state of a scheduled policy: two peers' endpoints exist, the
+    /// receivers are still with the machine (they are handed to the MPC channel on Running)
+    fn scheduled(state_kind: PolicyStateKind<NoClient>, receivers_taken: bool) -> Self {
+        let mut st = EnvState::new(state_kind);
+        st.channel_senders = vec![EnvSender, EnvSender];
+        st.channel_receivers = if receivers_taken { None } else { Some(vec![EnvReceiver, EnvReceiver]) };
+        st
+    }
+    fn scheduled_endpoints_untouched(&self, receivers_taken: bool) -> bool {
+        self.init_channel_calls == 0
+            && self.channel_senders.len() == 2
+            && match &self.channel_receivers {
+                None => receivers_taken,
+                Some(r) => !receivers_taken && r.len() == 2,
+            }
+    }
     fn insert_consts(&mut self, _party: usize, consts: Consts) {
         self.insert_consts_calls += 1;
         std::mem::forget(consts);
@@ -1000,3 +1016,95 @@ fn c16_leader_ends_when_a_follower_refuses() {
     kani::cover!(true, "reachable");
     std::mem::forget(flow);
 }
+
+// ------------------------------------------------------------------------------------------ C14: every other state of a scheduled policy
+
+/// C14 - one stray command against a machine in state `$state` (generated constructor, fields
+/// read from the source): answered with InvalidState on its own reply channel only, same state
+/// variant afterwards, endpoints untouched, nothing inserted / started, machine keeps running.
+macro_rules! stray_in_state {
+    ($name:ident, schedule, $state:ident, $taken:expr) => {
+        #[kani::proof]
+        #[kani::unwind(5)]
+        #[kani::stub(std::fmt::format, no_format)]
+        #[kani::stub(std::collections::hash_map::RandomState::new, env_random_state)]
+        fn $name() {
+            let is_leader: bool = kani::any();
+            let (party, leader) = roles(is_leader);
+            let st = EnvState::scheduled($state(), $taken);
+            let before = std::mem::discriminant(&st.state_kind);
+            reset_answers();
+            let flow = seg_sc_schedule(st, fake_policy(party, leader), open_ret(), fake_typed_program(), is_leader);
+            assert!(!unsafe { ENV_LEADER_PROCEEDS }, "C14:schedule:duplicate-leader-schedule-does-not-start-another-validation-round");
+            match flow {
+                ControlFlow::Continue(st) => {
+                    assert!(st.scheduled_endpoints_untouched($taken), "C14:schedule:rejected-duplicate-leaves-the-mpc-channel-endpoints-untouched");
+                    assert!(std::mem::discriminant(&st.state_kind) == before, "C14:schedule:rejected-duplicate-keeps-the-state");
+                    assert!(answer(SCHEDULE, false) == (E_INVALID_STATE, 1) && answer(SCHEDULE, true) == (NONE, 0) && answer(VALIDATE, true) == (NONE, 0), "C14:schedule:duplicate-is-answered-with-an-invalid-state-error-and-nobody-else-is-answered");
+                    kani::cover!(is_leader, "leader_duplicate_reachable");
+                    kani::cover!(!is_leader, "follower_duplicate_reachable");
+                    std::mem::forget(st);
+                }
+                ControlFlow::Break(()) => assert!(false, "C14:schedule:rejected-duplicate-does-not-stop-the-state-machine"),
+            }
+        }
+    };
+    ($name:ident, validate, $state:ident, $taken:expr) => {
+        #[kani::proof]
+        #[kani::unwind(5)]
+        #[kani::stub(std::fmt::format, no_format)]
+        #[kani::stub(std::collections::hash_map::RandomState::new, env_random_state)]
+        fn $name() {
+            let st = EnvState::scheduled($state(), $taken);
+            let before = std::mem::discriminant(&st.state_kind);
+            let req = ValidateRequest { computation_id: Uuid::nil(), program_hash: String::from("a"), leader: kani::any() };
+            reset_answers();
+            let flow = seg_sc_validate(st, req, open_ret());
+            match flow {
+                ControlFlow::Continue(st) => {
+                    assert!(st.scheduled_endpoints_untouched($taken), "C14:validate:stray-validate-leaves-the-mpc-channel-endpoints-untouched");
+                    assert!(std::mem::discriminant(&st.state_kind) == before, "C14:validate:stray-validate-keeps-the-state");
+                    assert!(answer(VALIDATE, false) == (E_INVALID_STATE, 1) && answer(VALIDATE, true) == (NONE, 0) && answer(SCHEDULE, true) == (NONE, 0), "C14:validate:stray-validate-is-answered-with-an-invalid-state-error-and-nobody-else-is-answered");
+                    kani::cover!(true, "reachable");
+                    std::mem::forget(st);
+                }
+                ControlFlow::Break(()) => assert!(false, "C14:validate:stray-validate-does-not-stop-the-state-machine"),
+            }
+        }
+    };
+    ($name:ident, consts, $state:ident, $taken:expr) => {
+        #[kani::proof]
+        #[kani::unwind(5)]
+        #[kani::stub(std::fmt::format, no_format)]
+        #[kani::stub(std::collections::hash_map::RandomState::new, env_random_state)]
+        fn $name() {
+            let st = EnvState::scheduled($state(), $taken);
+            let before = std::mem::discriminant(&st.state_kind);
+            reset_answers();
+            let flow = seg_sc_consts(st, fake_consts_request(kani::any()), open_ret());
+            match flow {
+                ControlFlow::Continue(st) => {
+                    assert!(st.scheduled_endpoints_untouched($taken), "C14:consts:stray-constants-leave-the-mpc-channel-endpoints-untouched");
+                    assert!(std::mem::discriminant(&st.state_kind) == before, "C14:consts:stray-constants-keep-the-state");
+                    assert!(st.insert_consts_calls == 0 && st.check_consts_calls == 0, "C14:consts:stray-constants-are-not-inserted");
+                    assert!(answer(CONSTS, false) == (E_INVALID_STATE, 1) && answer(SCHEDULE, true) == (NONE, 0) && answer(VALIDATE, true) == (NONE, 0), "C14:consts:stray-constants-are-answered-with-an-invalid-state-error-and-nobody-else-is-answered");
+                    kani::cover!(true, "reachable");
+                    std::mem::forget(st);
+                }
+                ControlFlow::Break(()) => assert!(false, "C14:consts:stray-constants-do-not-stop-the-state-machine"),
+            }
+        }
+    };
+}
+
+stray_in_state!(c14_schedule_duplicate_in_awaiting_validation, schedule, state_awaiting_validation, false);
+stray_in_state!(c14_schedule_duplicate_in_validated, schedule, state_validated, false);
+stray_in_state!(c14_schedule_duplicate_in_sending_consts, schedule, state_sending_consts, false);
+stray_in_state!(c14_schedule_duplicate_in_sending_consts_completed, schedule, state_sending_consts_completed, false);
+stray_in_state!(c14_schedule_duplicate_in_running, schedule, state_running, true);
+stray_in_state!(c14_validate_stray_in_validated, validate, state_validated, false);
+stray_in_state!(c14_validate_stray_in_sending_consts, validate, state_sending_consts, false);
+stray_in_state!(c14_validate_stray_in_sending_consts_completed, validate, state_sending_consts_completed, false);
+stray_in_state!(c14_validate_stray_in_running, validate, state_running, true);
+stray_in_state!(c14_consts_stray_in_awaiting_validation, consts, state_awaiting_validation, false);
+stray_in_state!(c14_consts_stray_in_running, consts, state_running, true);
